@@ -26,10 +26,11 @@ RULE = ("case = delete: target {Array with metadata, RaggedArray, plain dir, fil
 ASSUMPTIONS = ["a symlink whose name collides with a Darr file name counts as foreign content",
                "Darr's own regular files may be gone after a delete that raises OSError because of foreign entries (the property allows it)"]
 EXHAUSTIVE = None
-FKINDS = ['file', 'dir', 'symfile', 'symdir', 'dangling', 'collide-symlink', 'collide-dir']
+FKINDS = ['file', 'dir', 'symfile', 'symdir', 'dangling', 'collide-symlink', 'collide-dir', 'casevariant']
 CREATORS = ['asarray', 'create_array', 'asraggedarray', 'create_raggedarray', 'Array.copy', 'RaggedArray.copy', 'archive']
+FAILS = [None, 'iter-raises-later', 'bad-later-item']
 OCCUPANTS = ['none', 'array', 'array-large', 'ragged', 'file', 'dir']
-MUST_HIT = ([f'foreign:{k}' for k in FKINDS] + ['where:values', 'where:indices', 'where:top', 'delete:success', 'delete:foreign->OSError',
+MUST_HIT = (['delete:stale-object', 'create:failing-input'] + [f'foreign:{k}' for k in FKINDS] + ['where:values', 'where:indices', 'where:top', 'delete:success', 'delete:foreign->OSError',
             'delete:wrongkind->TypeError', 'form:obj', 'form:str', 'form:path'] +
             [f'create:{c}:ow={o}' for c in CREATORS for o in (False, True)] + [f'occupant:{o}' for o in OCCUPANTS])
 
@@ -47,12 +48,12 @@ def st_case(draw):
     if fam == 'delete':
         target = draw(st.sampled_from(['array', 'array', 'ragged', 'ragged', 'plaindir', 'file', 'missing']))
         return {'fam': 'delete', 'target': target, 'func': draw(st.sampled_from(['delete_array', 'delete_raggedarray'])),
-                'form': draw(st.sampled_from(['obj', 'str', 'path'])),
+                'form': draw(st.sampled_from(['obj', 'str', 'path', 'stale-obj'])),
                 'foreign': draw(st.lists(st_foreign(target == 'ragged'), max_size=3)), 'meta': draw(st.booleans())}
     occ = draw(st.sampled_from(OCCUPANTS))
     return {'fam': 'create', 'func': draw(st.sampled_from(CREATORS)), 'overwrite': draw(st.booleans()), 'occupant': occ,
             'foreign': draw(st.lists(st_foreign(occ == 'ragged'), max_size=3)) if occ in ('array', 'array-large', 'ragged', 'dir') else [],
-            'meta': draw(st.booleans()), 'newmeta': draw(st.booleans())}
+            'meta': draw(st.booleans()), 'newmeta': draw(st.booleans()), 'fail': draw(st.sampled_from([None, None, None] + FAILS[1:]))}
 
 
 DARRNAMES = ['metadata.json', 'README.txt', 'arraydescription.json', 'arrayvalues.bin']
@@ -62,8 +63,9 @@ def place_foreign(base, outside, f, i, out):
     """Create one foreign entry below directory `base`; returns its name (relative to base) or None."""
     k = f['kind']
     out.cls('foreign:' + k)
-    name = {'file': f'notes{i}.txt', 'dir': f'extra{i}', 'symfile': f'lnk{i}', 'symdir': f'lnkd{i}', 'dangling': f'dang{i}'}.get(k)
-    if k == 'file':
+    name = {'file': f'notes{i}.txt', 'dir': f'extra{i}', 'symfile': f'lnk{i}', 'symdir': f'lnkd{i}', 'dangling': f'dang{i}',
+            'casevariant': ['Readme.txt', 'Metadata.JSON', 'ARRAYVALUES.BIN', 'arraydescription.JSON'][(i + f['n']) % 4]}.get(k)
+    if k in ('file', 'casevariant'):
         with open(os.path.join(base, name), 'wb') as fh:
             fh.write(b'user data %d' % i)
     elif k == 'dir':
@@ -188,6 +190,11 @@ def _delete(spec, path, parent, outside, occ, fnames, before_p, before_o, out):
     out.cls('form:' + form)
     tag = f"{spec['func']}:{occ}"
     arg = path if form == 'str' else pathlib.Path(path)
+    if form == 'stale-obj':
+        if not right:
+            form = 'str'
+        else:
+            return _delete_stale(spec, path, parent, outside, occ, out)
     if form == 'obj':
         if not right:
             form = 'str'
@@ -237,6 +244,47 @@ def _delete(spec, path, parent, outside, occ, fnames, before_p, before_o, out):
             out.viol('delete-touched-parent', tag, '; '.join(diff(rest_b, rest_a)))
 
 
+def _delete_stale(spec, path, parent, outside, occ, out):
+    """delete called with a handle that outlived its array: the path now holds something else, which must be refused and untouched."""
+    import darr, shutil
+    out.cls('delete:stale-object')
+    h = (darr.Array if occ == 'array' else darr.RaggedArray)(path, accessmode='r+')
+    func = getattr(darr, spec['func'])
+    n = sum(f['n'] for f in spec['foreign']) + len(spec['foreign'])
+    how = ['user-dir', 'other-kind'][n % 2]
+    if how == 'user-dir':
+        shutil.rmtree(path)
+        os.mkdir(path)
+        for nm, content in (('README.txt', b'my own readme'), ('metadata.json', b'{"mine": true}'), ('results.csv', b'1,2\n')):
+            with open(os.path.join(path, nm), 'wb') as f:
+                f.write(content)
+        if occ == 'ragged':
+            os.mkdir(os.path.join(path, 'values'))
+            with open(os.path.join(path, 'values', 'README.txt'), 'wb') as f:
+                f.write(b'mine too')
+    else:
+        try:
+            if occ == 'array':
+                darr.asraggedarray(path, [[1, 2], [3]], dtype='int8', overwrite=True, metadata={'now': 'ragged'})
+            else:
+                darr.asarray(path, np.arange(4, dtype='int8'), overwrite=True, metadata={'now': 'array'})
+        except OSError:
+            out.nontrivial = False      # a colliding foreign entry prevents the re-creation: not this scenario
+            return
+    before = snapshot(parent)
+    try:
+        func(h)
+        exc = None
+    except Exception as e:
+        exc = e
+    after = snapshot(parent)
+    tag = f"{spec['func']}:stale-object:{how}"
+    if exc is None:
+        out.viol('stale-object-not-refused', tag, 'delete with a handle whose array no longer exists returned normally')
+    if after != before:
+        out.viol('stale-object-delete-changed-files', tag, '; '.join(diff(before, after)))
+
+
 def _create(spec, path, parent, outside, occ, fnames, before_p, before_o, out, d):
     import darr
     func, ow = spec['func'], spec['overwrite']
@@ -256,8 +304,26 @@ def _create(spec, path, parent, outside, occ, fnames, before_p, before_o, out, d
             target = path      # archive file path
     except Exception as e:
         raise
+    fail = spec.get('fail') if func in ('asarray', 'asraggedarray') else None
+
+    class _Boom(Exception):
+        pass
+
+    def failing(items):
+        yield items[0]
+        if fail == 'iter-raises-later':
+            raise _Boom('input iterable failed')
+        yield np.zeros((2, 5, 5), dtype='int16')     # cannot be appended to what the first item started
+    if fail:
+        out.cls('create:failing-input')
     try:
-        if func == 'asarray':
+        if func == 'asarray' and fail:
+            r = darr.asarray(path, failing([np.arange(4, dtype='int16')]), metadata=newmd, **kw)
+            want = None
+        elif func == 'asraggedarray' and fail:
+            r = darr.asraggedarray(path, failing([np.array([7, 8], dtype='int16')]), dtype='int16', metadata=newmd, **kw)
+            want = None
+        elif func == 'asarray':
             r = darr.asarray(path, np.arange(4, dtype='int16') * 3, metadata=newmd, **kw)
             want = ('Array', (np.arange(4, dtype='int16') * 3))
         elif func == 'create_array':
@@ -293,6 +359,10 @@ def _create(spec, path, parent, outside, occ, fnames, before_p, before_o, out, d
     sig = f'{func}:overwrite=True:colliding-symlink' if 'collide-symlink' in fk else None
     if not _foreign_ok(out, tag + ':' + '+'.join(fk), before_p, before_o, parent, outside, fnames, sigtag=sig):
         return
+    if fail:
+        if exc is None:
+            out.viol('failing-input-accepted', f'{func}:{fail}', 'creation from an input that fails part-way returned normally')
+        return       # foreign data survived (checked above); what is left of Darr's own files is not claimed here
     if exc is not None:
         if occ == 'none':
             out.viol('create-raised', f'{tag}:{type(exc).__name__}', f'{type(exc).__name__}: {exc}')
@@ -339,6 +409,14 @@ def grid():
                        'foreign': [{'kind': fk, 'where': where, 'n': 0}] if fk else []}
                 if not fk:
                     break
+    for func, occ, fail in itertools.product(['asarray', 'asraggedarray'], ['array', 'ragged', 'dir'], FAILS[1:]):
+        for fk in FKINDS:
+            for where in (['top'] if occ != 'ragged' else ['top', 'values', 'indices']):
+                yield {'fam': 'create', 'func': func, 'overwrite': True, 'occupant': occ, 'meta': True, 'newmeta': False, 'fail': fail,
+                       'foreign': [{'kind': fk, 'where': where, 'n': 0}]}
+    for target, func in (('array', 'delete_array'), ('ragged', 'delete_raggedarray')):
+        for n in (0, 1):
+            yield {'fam': 'delete', 'target': target, 'func': func, 'form': 'stale-obj', 'meta': True, 'foreign': [{'kind': 'file', 'where': 'top', 'n': n}][:n] if n == 0 else [{'kind': 'file', 'where': 'top', 'n': 0}]}
     for target, func, form in itertools.product(['array', 'ragged', 'plaindir', 'file', 'missing'], ['delete_array', 'delete_raggedarray'],
                                                 ['obj', 'str', 'path']):
         for fk in [None] + FKINDS:
